@@ -51,14 +51,48 @@ def local_collection_name(key, kind, default="removals"):
     return default
 
 
+def marked_array_name(key, default="new_ids"):
+    """name of to_subtree's local array of removal marks, read off its current AST (so that the local may be renamed): the first
+    component of the tuple handed to propagate_removal"""
+    import ast
+
+    from pyvc import extract
+
+    try:
+        node, _, _ = extract.find(key)
+    except (KeyError, OSError):
+        return default
+    for x in ast.walk(node):
+        if isinstance(x, ast.Call) and getattr(x.func, "id", getattr(x.func, "attr", None)) == "propagate_removal" and x.args:
+            a = x.args[0]
+            if isinstance(a, ast.Tuple) and a.elts and isinstance(a.elts[0], ast.Name):
+                return a.elts[0].id
+    return default
+
+
 PPOS = z3.Function("parent_pos", z3.IntSort(), z3.IntSort())  # ghost: position of a kept entry's parent entry
+
+
+def as_sarr(a):
+    """a 1-D integer array of CONCRETE length (e.g. `np.array([n, c1, c2])` built from a Python list on one path) read as a symbolic array
+    of that length, so that the clauses below apply to it unchanged"""
+    from pyvc.values import NArr
+
+    if isinstance(a, NArr) and a.ndim == 1 and a.kind in ("int", "bool"):
+        arr = z3.K(z3.IntSort(), z3.IntVal(0))
+        for j, x in enumerate(a.items):
+            arr = z3.Store(arr, j, to_z3(x, "int"))
+        out = SArr(arr, len(a.items), "int", name="column")
+        out.uid = a.uid
+        return out
+    return a
 
 
 def sub_pre(which):
     """preconditions of to_sub_topology: the kept entries carry pairwise distinct ids, and the parent id of a kept entry
     is -1 or the id of a KEPT entry (ghost PPOS) -- otherwise the dict lookup raises KeyError"""
     def f(E, v, o):
-        sid, spid = v["sub"]
+        sid, spid = (as_sarr(a) for a in v["sub"])
         n = sid.nz()
         i, j = z3.Int(fresh_name("i")), z3.Int(fresh_name("j"))
         kept = lambda t: z3.And(t >= 0, t < n, z3.Select(sid.arr, t) != REMOVAL)
@@ -66,6 +100,12 @@ def sub_pre(which):
             return spid.nz() == n
         if which == "kept-ids-pairwise-distinct":
             return z3.ForAll([i, j], z3.Implies(z3.And(kept(i), kept(j), i != j), z3.Select(sid.arr, i) != z3.Select(sid.arr, j)))
+        if isinstance(sid.n, int) and not isinstance(sid.n, bool):
+            # a table of exactly sid.n entries: "the parent id of a kept entry is the id of SOME kept entry" as a finite disjunction
+            # (no ghost position function is needed, so a caller need not define one)
+            return z3.And(*[z3.Implies(z3.And(kept(z3.IntVal(a)), z3.Select(spid.arr, a) != -1),
+                                       z3.Or(*[z3.And(kept(z3.IntVal(b)), z3.Select(sid.arr, b) == z3.Select(spid.arr, a)) for b in range(sid.n)]))
+                            for a in range(sid.n)])
         return z3.ForAll([i], z3.Implies(z3.And(kept(i), z3.Select(spid.arr, i) != -1), z3.And(kept(PPOS(i)), z3.Select(sid.arr, PPOS(i)) == z3.Select(spid.arr, i))))
 
     return (which, f)
@@ -96,7 +136,7 @@ def register(R: Registry):
     def post(which):
         def f(E, v, o):
             (new_id, new_pid), mapping = v["result"]
-            sid, spid = o["sub"]
+            sid, spid = (as_sarr(a) for a in o["sub"])
             kappa, rho = mapping.kappa, mapping.rho
             n, m = sid.nz(), mapping.nz()
             k, i = z3.Ints(fresh_name("k") + " " + fresh_name("i"))
@@ -280,7 +320,7 @@ def register_subtree(R):
         return f
 
     def impl_pre_inrange(E, v, o):
-        sid, _ = v["sub"]
+        sid = as_sarr(v["sub"][0])
         i = z3.Int(fresh_name("i"))
         return z3.ForAll([i], z3.Implies(z3.And(i >= 0, i < sid.nz(), sid.get(i).z != REMOVAL), z3.And(sid.get(i).z >= 0, sid.get(i).z < nof(v["swc_like"]))))
 
@@ -438,6 +478,8 @@ def register_subtree(R):
         A, ln = list_view(rem)
         return z3.ForAll([j], z3.Implies(z3.And(j >= 0, j < ln), z3.And(sel(A, j) >= 0, sel(A, j) < n)))
 
+    MARKS = marked_array_name(f"{TU}:to_subtree")  # to_subtree's local array of removal marks (whatever it is called)
+
     def ts_inv(which):
         def f(E, v, o):
             t = v["swc_like"]
@@ -445,7 +487,9 @@ def register_subtree(R):
             rem = v["removals"]
             k = to_z3(v["_k0"], "int")
             x, j = z3.Int(fresh_name("x")), z3.Int(fresh_name("j"))
-            a = v["new_ids"]
+            a = v.get(MARKS)
+            if not isinstance(a, SArr):
+                return False
             if isinstance(rem, SymSet):  # the loop walks a ghost enumeration of the members (each once): pos = position in it
                 ks, m, pos, mem0 = E.ghost[("setelems-last", rem.uid)]
                 listed = z3.And(sel(mem0, x), pos(x) < k)
@@ -599,12 +643,34 @@ def register_subtree(R):
         nd.ghost6 = dict(mapping=SArr.fresh("int", m.z, name="mapping"), Sub=z3.Function(fresh_name("Sub"), I, z3.BoolSort()))
         return (m, nd, t.fields["source"], t.fields["names"])
 
-    def gs_ghost(E, ndata):
+    def descendants_of(E, t, start):
+        """ghost definition, for a carrier that does NOT go through the traversal (whose rule introduces this predicate itself): Sub =
+        the start node and every node whose parent is in Sub, nothing else -- the descendant set, which exists and is unique on a
+        well-formed table (the precondition)"""
+        key = ("Sub6", t.uid, z3.simplify(to_z3(start, "int")).sexpr())
+        if key not in E.ghost:
+            Sub = z3.Function(fresh_name("Sub"), I, z3.BoolSort())
+            P, n, root = col(t, "pid").arr, nof(t), to_z3(start, "int")
+            x = z3.Int(fresh_name("x"))
+            Rg = lambda q: z3.And(q >= 0, q < n)
+            E.assume(Sub(root))
+            E.assume(z3.ForAll([x], z3.Implies(Sub(x), Rg(x))))
+            E.assume(z3.ForAll([x], z3.Implies(z3.And(Rg(x), sel(P, x) >= 0, Sub(sel(P, x))), Sub(x))))
+            E.assume(z3.ForAll([x], z3.Implies(z3.And(Sub(x), x != root), z3.And(sel(P, x) >= 0, Sub(sel(P, x))))))
+            E.assume(z3.Implies(sel(P, root) >= 0, z3.Not(Sub(sel(P, root)))))
+            E.assumptions.add("ghost definition: Sub = the start node and its descendants (least set closed under `parent in Sub`; exists uniquely on a well-formed table), "
+                              "used where a carrier collects a subtree without the traversal")
+            E.ghost[key] = Sub
+        return E.ghost[key]
+
+    def gs_ghost(E, ndata, t=None, start=None):
         g = getattr(ndata, "ghost6", None)
         if g is not None:
             return g["mapping"], g["Sub"]
         c = topo_call(E)
         Sub = E.ghost.get("last-traverse-Sub")
+        if Sub is None and t is not None:
+            Sub = descendants_of(E, t, start)
         if c is None or Sub is None:
             return None
         return c["__result__"][1], Sub
@@ -652,7 +718,7 @@ def register_subtree(R):
 
     def gs_post(which):
         def f(E, v, o):
-            return gs_clause(E, which, v["result"], o["swc_like"], o["n"], gs_ghost(E, v["result"][1]), v["out_mapping"])
+            return gs_clause(E, which, v["result"], o["swc_like"], o["n"], gs_ghost(E, v["result"][1], o["swc_like"], o["n"]), v["out_mapping"])
 
         return f
 
